@@ -105,7 +105,16 @@ fn proj_rout(outs: &[RestartingOutput]) -> String {
     )
 }
 
-fn proj_gr(g: &GrState) -> String {
+pub(crate) fn gr_variant(g: &GrState) -> &'static str {
+    match &g.state {
+        Inner::Idle => "Idle",
+        Inner::PeerRestarting { .. } => "PeerRestarting",
+        Inner::LlgrStaling { .. } => "LlgrStaling",
+        Inner::PeerReconnected { .. } => "PeerReconnected",
+    }
+}
+
+pub(crate) fn proj_gr(g: &GrState) -> String {
     match &g.state {
         Inner::Idle => "{\"st\":\"Idle\",\"fams\":[],\"llgr\":[],\"from_llgr\":false}".to_string(),
         Inner::PeerRestarting { stale_families, llgr } => format!(
